@@ -511,6 +511,19 @@ func (x *Exec) sqlRowScan(st *State, fr *Frame, c *callCtx) bool {
 	return true
 }
 
+// completeCall finishes the current call on state s; states other than the
+// one being stepped are queued.
+func (x *Exec) completeCall(s *State, c *callCtx, v Value) {
+	x.complete(s, x.cur, c, v)
+}
+
+func constInt(c *types.Const) (int64, bool) {
+	if c.Val().Kind() != constant.Int {
+		return 0, false
+	}
+	return constant.Int64Val(c.Val())
+}
+
 // complete finishes the current call on state s; clones are queued.
 func (x *Exec) complete(s, cur *State, c *callCtx, v Value) {
 	if s == nil || s.dead {
